@@ -42,7 +42,7 @@ C20 = dict(
          "channel must deliver exactly the non-block entries in order (10 s allowance each), then close — or, with a tail, stay "
          "silent and open for 20 ms (plus the scripted delays before an indefinite block). Illegal scripts (nil entry, follow-up "
          "after ErrClosed / wrapped ErrClosed / ExchangeBlock{}, entries with a non-nil errFix) must panic at construction. "
-         "TestC20MockConcurrent: publish, subscribe and unsubscribe mocks with N identical expectations used by 2-8 goroutines making 1, 10, 200 or 2000 matching calls each, N = calls + {0, -2..2}: failed <=> N differs from the number of calls, no panic, no error from a matching call. Non-trivial: exactly one differing field (or filter set) with the right call count, or an off-by-one call count with "
+         "TestC20ExchangeScript also judges time from below: a scripted error (and the close) never arrives before the delays of the blocks scripted in front of it have elapsed (time.Sleep never returns early; no upper bound beyond the 10 s arrival limit). TestC20MockConcurrent: publish, subscribe and unsubscribe mocks with N identical expectations used by 2-8 goroutines making 1, 10, 200 or 2000 matching calls each, N = calls + {0, -2..2}: failed <=> N differs from the number of calls, no panic, no error from a matching call. Non-trivial: exactly one differing field (or filter set) with the right call count, or an off-by-one call count with "
          "no differing field, or an exchange script of ≥ 2 entries; stub cases are counted as evaluations only. Distinct = "
          "distinct rendered cases (64-bit FNV-1a).",
     assumptions=ASSUME_PURE,
